@@ -1,8 +1,8 @@
 (* C02 - System Z = rank comparison under the Z-ranking.  Property theorems only. *)
 From InfOCF Require Import Core Tol Form Model Spec ThmOps ThmTop.
 From InfOCFProps Require Import Ex.
-From InfOCF Require Import PyLib TieCons TieZ TieP TieTop.
-From InfOCFGen Require Import SrcCond SrcCons SrcInf SrcZ SrcP.
+From InfOCF Require Import PyLib TieSolver TieCons TieInf TieZ.
+From InfOCFGen Require Import SrcCond SrcCons SrcInf SrcZ.
 From Coq Require Import ZArith.
 
 Theorem C02_system_z_is_rank_comparison : forall n D q P, D <> [] -> part_strict n D = Some P ->
